@@ -51,20 +51,50 @@ def rand_word(rng, B):
     return rng.getrandbits(rng.choice([8, 16, 64, 128]))
 
 
+# every non-foldable constructor the value type has: tag -> number of children (None = variadic)
+NONFOLD = {"signext": 2, "sha3": 1, "balance": 1, "extcodehash": 1, "extcodesize": 1, "blockhash": 1, "codecopy": 2,
+           "extcodecopy": 3, "returndata": 2, "return": 1, "revert": 1, "selfdestruct": 1, "unwritten": 1, "sload": 2,
+           "slot": 1, "swrite": 2, "concat": None, "mapix": 2, "dynix": 2, "subword": 1, "shifted": 1, "callv": 6,
+           "call": 5, "log": None, "create": 2, "create2": 3, "cd": 2, "packed": None}
+NULLARY = ["address", "origin", "caller", "callvalue", "gasprice", "coinbase", "timestamp", "number", "prevrandao",
+           "gaslimit", "chainid", "selfbalance", "basefee", "gas", "calldatasize"]
+
+
+def nonfold_node(rng, tag, kid):
+    """Builds a node with constructor `tag`; kid() supplies each child."""
+    n = NONFOLD[tag]
+    if tag == "packed":
+        k = rng.randint(1, 3)
+        width = 256 // k
+        return ["packed"] + [[i * width, rng.choice([8, width]), kid()] for i in range(k)]
+    if n is None:
+        n = rng.randint(1, 4)
+    node = [tag]
+    if tag == "cd":
+        node.append("00000000-0000-4000-9000-%012x" % rng.randrange(4))
+    node += [kid() for _ in range(n)]
+    if tag == "mapix":
+        node.append({"proj": rng.choice([None, 0, 1, 7])})
+    elif tag == "subword":
+        node.append({"off": rng.choice([0, 8, 160]), "size": rng.choice([8, 64, 96])})
+    elif tag == "shifted":
+        node.append({"off": rng.choice([0, 8, 160])})
+    return node
+
+
 def rand_tree(rng, B, depth, nleaves):
     r = rng.random()
     if depth == 0 or r < 0.15:
-        if rng.random() < 0.55:
+        q = rng.random()
+        if q < 0.5:
             return te.const(rand_word(rng, B))
-        return leaf(rng.randrange(nleaves))
-    if r < 0.25:
-        # a non-foldable node
-        tag = rng.choice(["signext", "sha3", "sload", "balance"])
-        if tag == "signext":
-            return [tag, rand_tree(rng, B, depth - 1, nleaves), rand_tree(rng, B, depth - 1, nleaves)]
-        if tag == "sload":
-            return [tag, rand_tree(rng, B, depth - 1, nleaves), rand_tree(rng, B, depth - 1, nleaves)]
-        return [tag, rand_tree(rng, B, depth - 1, nleaves)]
+        if q < 0.9:
+            return leaf(rng.randrange(nleaves))
+        return [rng.choice(NULLARY)]
+    if r < 0.3:
+        # a non-foldable node (any constructor)
+        tag = rng.choice(sorted(NONFOLD))
+        return nonfold_node(rng, tag, lambda: rand_tree(rng, B, depth - 1, nleaves))
     op = rng.choice(sorted(te.FOLDABLE))
     if op in te.UN:
         return [op, rand_tree(rng, B, depth - 1, nleaves)]
@@ -103,6 +133,8 @@ def judge(res, kind, tree, info, r, profile, rng, B):
     if kind != "const" or info != "general":
         res.nontriv(common.sha(tree))
     res.count("kind:%s" % kind)
+    if kind == "variant":
+        res.count("constructor:%s" % info)
     res.count("op:%s" % root)
     if out["size"] != out["count"]:
         res.violation("fold:size:%s" % root, "folded value reports size %d, has %d nodes" % (out["size"], out["count"]), case)
@@ -112,6 +144,9 @@ def judge(res, kind, tree, info, r, profile, rng, B):
         if kind == "const":
             sig = "fold:const:%s:%s" % (root, info)
             what = "folds to %s, EVM result %s" % (got[1] if got[0] == "k" else got[0], want[1])
+        elif kind == "variant":
+            sig = "fold:constructor:%s:%s" % (info, first_diff(want, got))
+            what = "reference %s library %s" % (json.dumps(want)[:200], json.dumps(got)[:200])
         elif kind == "one-opaque":
             sig = "fold:rebuild:%s->%s" % (root, got[0])
             what = "operator %s with an opaque operand came back as %s" % (root, json.dumps(got)[:160])
@@ -132,8 +167,12 @@ def judge(res, kind, tree, info, r, profile, rng, B):
 
 
 def first_diff(want, got):
+    if want == got:
+        return "same"
     if not isinstance(want, list) or not isinstance(got, list):
-        return "leaf"
+        return "payload"
+    if not isinstance(want[0], str):
+        return "packed-span" if want[:2] != got[:2] else first_diff(want[2], got[2])
     if want[0] != got[0]:
         return "%s->%s" % (want[0], got[0])
     if want[0] in ("k", "v"):
@@ -181,6 +220,30 @@ def gen(shard_no, nshards, seed, tier):
                 yield "one-opaque", [op, te.const(a), leaf(0)], "opaque-right"
                 yield "one-opaque", [op, leaf(0), te.const(a)], "opaque-left"
                 yield "one-opaque", [op, leaf(0), leaf(1)], "opaque-both"
+    # (ii-b) every non-foldable constructor: opaque children; one child a foldable constant expression (each position);
+    # nested under a foldable operator. Folding must keep the constructor, its payload and the child positions.
+    for tag in sorted(NONFOLD):
+        for variant in range(6):
+            idx += 1
+            if idx % nshards != shard_no:
+                continue
+            cnt = [0]
+
+            def kid():
+                cnt[0] += 1
+                if variant == 0:
+                    return leaf(cnt[0] % 3)
+                if cnt[0] - 1 == (variant - 1) % 3 or variant == 5:
+                    return ["add", te.const(rng.choice(small)), te.const(rng.choice(small))]
+                return leaf(cnt[0] % 3) if variant < 4 else [rng.choice(NULLARY)]
+            node = nonfold_node(rng, tag, kid)
+            yield "variant", node, tag
+            yield "variant", ["add", node, ["mul", te.const(3), te.const(5)]], tag
+    for tag in NULLARY:
+        idx += 1
+        if idx % nshards == shard_no:
+            yield "variant", [tag], tag
+            yield "variant", ["sub", [tag], ["add", te.const(1), te.const(2)]], tag
     # (iii) random trees
     n = (900 if tier == "quick" else 60000)
     for i in range(n):
